@@ -276,6 +276,31 @@ class TypecodeTable(dict):
         return self.n
 
 
+class GenExp:
+    """a generator expression: its outermost iterable is evaluated where the expression stands, everything else when it
+    is first consumed - names it refers to are looked up then (late binding), as in Python.  Unlike a Python generator it
+    can be iterated again (the values are kept), which only matters for code that would be wrong in Python anyway."""
+
+    def __init__(self, thunk):
+        self._thunk, self._values, self._cursor = thunk, None, 0
+
+    def values(self):
+        if self._values is None:
+            self._values = list(self._thunk())
+            self._thunk = None
+        return self._values
+
+    def __iter__(self):
+        return iter(self.values())
+
+    def __next__(self):
+        vs = self.values()
+        if self._cursor >= len(vs):
+            raise StopIteration
+        self._cursor += 1
+        return vs[self._cursor - 1]
+
+
 class _Deque(list):
     """collections.deque over the list model (same order, both ends)"""
 
@@ -1599,6 +1624,8 @@ class Interp:
         a, b = _num(a), _num(b)
         if op in self._DUNDER and (self.obj_class(a) is not None or self.obj_class(b) is not None):
             return self.rich(op, a, b, node)
+        if op in self._DUNDER and isinstance(a, Obj) and self._DUNDER[op] in a.attrs:
+            return a.attrs[self._DUNDER[op]](b)  # an abstract (user-side) object with comparison methods supplied by the rule
         if op in (ast.In, ast.NotIn) and (self.obj_class(a) is not None or self.obj_class(b) is not None or (isinstance(b, (list, tuple, set, frozenset)) and any(self.obj_class(x) is not None for x in b))):
             r = self.contains(a, b, node)
             return r if op is ast.In else not r
@@ -1719,13 +1746,13 @@ class Interp:
         env.set(e.target.id, v)
         return v
 
-    def _comp(self, gens, env, mod, emit):
+    def _comp(self, gens, env, mod, emit, first=None):
         def rec(k, env):
             if k == len(gens):
                 emit(env)
                 return
             g = gens[k]
-            for x in self.iterate(self.eval(g.iter, env, mod), g.iter):
+            for x in first if k == 0 and first is not None else self.iterate(self.eval(g.iter, env, mod), g.iter):
                 e2 = Env(env)
                 self.assign(g.target, x, e2, mod)
                 if all(self.truth(self.eval(c, e2, mod), c) for c in g.ifs):
@@ -1739,7 +1766,14 @@ class Interp:
         return out
 
     def e_GeneratorExp(self, e, env, mod):
-        return tuple(self.e_ListComp(e, env, mod))
+        first = self.iterate(self.eval(e.generators[0].iter, env, mod), e.generators[0].iter)
+
+        def thunk():
+            out = []
+            self._comp(e.generators, env, mod, lambda en: out.append(self.eval(e.elt, en, mod)), first=first)
+            return out
+
+        return GenExp(thunk)
 
     def e_SetComp(self, e, env, mod):
         return self.new_set(self.e_ListComp(e, env, mod))
@@ -1848,6 +1882,22 @@ class Interp:
             for x in self.iterate(args[0], node):
                 acc = self.binop(ast.Add, acc, x, node)
             return acc
+        if f in (BUILTINS["min"], BUILTINS["max"]) and args:
+            items = list(self.iterate(args[0], node)) if len(args) == 1 else list(args)
+            keyf = kwargs.get("key")
+            keys = [x if keyf is None else self.call(keyf, [x], {}, node, mod) for x in items]
+            if any(self.obj_class(k) is not None for k in keys):
+                # instances of repository classes: ordered by their own (lifted) comparison methods
+                if not items:
+                    if "default" in kwargs:
+                        return kwargs["default"]
+                    raise LiftRaise("ValueError: min() / max() of an empty sequence", node)
+                op = ast.Lt if f is BUILTINS["min"] else ast.Gt
+                best = 0
+                for k in range(1, len(items)):
+                    if self.truth(self.rich(op, keys[k], keys[best], node), node):
+                        best = k
+                return items[best]
         if f is BUILTINS["sorted"] and args:
             return self.py_sorted(args[0], kwargs.get("key"), kwargs.get("reverse", False), node)
         if isinstance(f, _OpFn):
@@ -2083,14 +2133,11 @@ def _b_getattr(*a):  # interpreted in Interp.call (attribute lookup of the lifte
 
 def _b_next(it, *default):
     if isinstance(it, (list, tuple)):
-        # a generator expression (evaluated to a sequence): its first value
-        if it:
-            return it[0]
-    else:
-        try:
-            return next(it)
-        except StopIteration:
-            pass
+        raise LiftRaise(f"TypeError: '{type(it).__name__}' object is not an iterator")
+    try:
+        return next(it)
+    except StopIteration:
+        pass
     if default:
         return default[0]
     raise LiftRaise("StopIteration")
